@@ -91,7 +91,8 @@ def stdlib_table():
         _STDLIB = {
             "itertools": {n: getattr(itertools, n) for n in ("count", "repeat", "cycle", "starmap", "accumulate", "groupby", "islice", "product", "permutations", "combinations",
                                                              "combinations_with_replacement", "zip_longest", "takewhile", "dropwhile", "tee", "compress", "filterfalse")},
-            "functools": {"reduce": functools.reduce, "partial": functools.partial, "lru_cache": (lambda *a, **k: (a[0] if a and callable(a[0]) else (lambda f: f))), "cache": (lambda f: f), "wraps": (lambda f: (lambda g: g))},
+            "functools": {"reduce": functools.reduce, "partial": functools.partial, "lru_cache": m_lru_cache, "cache": m_lru_cache, "wraps": (lambda f: (lambda g: g)), "cached_property": (lambda f: f),
+                          "total_ordering": (lambda c: c), "singledispatch": None},
             "collections": {"defaultdict": m_defaultdict, "deque": m_deque, "Counter": m_counter, "OrderedDict": dict, "namedtuple": __import__("cgstatic.userclass", fromlist=["x"]).namedtuple_factory,
                             "ChainMap": (lambda *maps: {k: v for m_ in reversed(maps) for k, v in m_.items()})},
             "typing": {n: object for n in ("Any", "Optional", "Iterable", "Iterator", "Sequence", "Mapping", "Dict", "List", "Set", "Tuple", "Callable", "Union", "FrozenSet", "Generator", "Hashable", "ClassVar", "Final")},
@@ -136,6 +137,48 @@ def bind_module_constants(tree, env):
                 env[name] = me.ev(st.value)
             except (Unsupported, ModelRaise, Exception):
                 continue
+
+
+def m_lru_cache(*dargs, maxsize=128, typed=False):
+    """functools.lru_cache / cache with their real effect: results are remembered per argument tuple (a memo that an edit of a
+    mutable argument, or of the world behind it, does not invalidate is exactly what some rules look for)."""
+    def decorate(f):
+        memo = {}
+
+        def wrapper(*a, **k):
+            try:
+                key = (a, tuple(sorted(k.items())))
+                hash(key)
+            except TypeError as e:
+                raise ModelRaise("TypeError", f"unhashable argument to a cached function: {e}")
+            if key not in memo:
+                memo[key] = f(*a, **k)
+            return memo[key]
+
+        wrapper.cache_clear = memo.clear
+        wrapper.cache_info = lambda: (0, 0, maxsize, len(memo))
+        wrapper.__wrapped__ = f
+        return wrapper
+
+    if len(dargs) == 1 and callable(dargs[0]):
+        return decorate(dargs[0])
+    return decorate
+
+
+def apply_decorators(fdef, clo, ev):
+    """Decorators of a plain function, innermost first (functools.lru_cache / cache / wraps ...; anything unknown is Unsupported)."""
+    for dec in reversed(fdef.decorator_list):
+        name = ast.unparse(dec.func if isinstance(dec, ast.Call) else dec).split(".")[-1]
+        if name in ("staticmethod", "classmethod", "property"):
+            continue  # only meaningful inside a class body, where the class machinery handles them
+        try:
+            d = ev(dec)
+        except Unsupported:
+            raise Unsupported(f"decorator {ast.unparse(dec)[:40]} on {fdef.name}")
+        if d is None or not callable(d):
+            raise Unsupported(f"decorator {ast.unparse(dec)[:40]} on {fdef.name}")
+        clo = d(clo)
+    return clo
 
 
 class MStringIO(Model):
@@ -454,6 +497,8 @@ class Package:
             if isinstance(st, ast.FunctionDef):
                 key = (rel, st.name)
                 env[st.name] = self.overrides[key] if key in self.overrides else bi.make_closure(st)
+        # decorators (functools.lru_cache ...) once every module-level name they may mention is bound
+        self._pending_decorators = [(st, rel) for st in tree.body if isinstance(st, ast.FunctionDef) and st.decorator_list and (rel, st.name) not in self.overrides]
         # classes the module defines for its own use (helper objects, NamedTuples, dataclasses); Circuit / BlackBox are
         # bound above, classes over library bases (lark's Transformer) have their own drivers
         from .userclass import build_class
@@ -465,6 +510,8 @@ class Package:
                 except Unsupported:
                     pass
         bind_module_constants(tree, env)
+        for st, rel_ in self._pending_decorators:
+            env[st.name] = apply_decorators(st, env[st.name], bi.me.ev)
         # a class may use module constants as defaults / class attributes and vice versa: second pass for late ones
         for st in tree.body:
             if isinstance(st, ast.ClassDef) and st.name not in env:
@@ -533,3 +580,74 @@ class Package:
             return ("raise", "RecursionError", "unbounded recursion on a small model")
         except Unsupported as e:
             raise AnalysisError(f"{qual}: unrecognised idiom: {e}", cls_rel, fi.node.lineno)
+
+
+def build_full(P, spec, outputs=(), name="m", blackboxes=None):
+    """The model circuit `spec` ({node: (type, [fan-in])}) as an instance of the repository's OWN Circuit class (P must be a
+    full-stack Package): built through its public API - every node first, then the wiring, so that loops are possible -
+    hence every query a transform makes on it (fanin, fanout, type, startpoints ...) runs circuit.py's code, not the
+    reference model's."""
+    assert P.full_stack
+    c = P.cg.Circuit(name)
+    for n, (t, fi) in spec.items():
+        if "." in n:
+            continue
+        c.add(n, t)
+    for inst, bb in (blackboxes or {}).items():
+        rb = P.cg.BlackBox(bb.name, sorted(bb.inputs()), sorted(bb.outputs()))
+        c.add_blackbox(rb, inst)
+    for n, (t, fi) in spec.items():
+        if fi:
+            c.connect(list(fi), n)
+    if outputs:
+        c.set_output(list(outputs))
+    return c
+
+
+def to_ref(x, _depth=0):
+    """A result computed over the repository's own classes, as reference-model objects (so that the oracles - simulation,
+    free nodes, snapshots - can read it): circuits by their raw graph, containers element-wise."""
+    if isinstance(x, RepoInstance):
+        d = object.__getattribute__(x, "__dict__")
+        if d.get("_ri_cls") == "Circuit":
+            bbs = {k: to_ref(v, _depth + 1) for k, v in dict(d.get("blackboxes", {})).items()}
+            return RefCircuit(graph=d["graph"].copy(), name=d.get("name"), blackboxes=bbs)
+        if d.get("_ri_cls") == "BlackBox":
+            return RefBlackBox(d.get("name"), sorted(d.get("input_set", ())), sorted(d.get("output_set", ())))
+        return x
+    if _depth > 4:
+        return x
+    if isinstance(x, tuple):
+        return tuple(to_ref(v, _depth + 1) for v in x)
+    if isinstance(x, list):
+        return [to_ref(v, _depth + 1) for v in x]
+    if isinstance(x, dict):
+        return {k: to_ref(v, _depth + 1) for k, v in x.items()}
+    if isinstance(x, (set, frozenset)) and any(isinstance(v, RepoInstance) for v in x):
+        return [to_ref(v, _depth + 1) for v in x]
+    return x
+
+
+def to_full(P, c):
+    spec = {n: (c.graph._node[n].get("type"), sorted(c.graph._pred[n])) for n in c.graph._node}
+    return build_full(P, spec, outputs=[n for n in c.graph._node if c.graph._node[n].get("output")], name=c.name, blackboxes=dict(c.blackboxes))
+
+
+class FullStackCaller:
+    """call(rel, fname, *args): like Package.call, but every reference circuit among the arguments is rebuilt as an instance of the
+    repository's own Circuit class (through its public API) and the result is handed back as reference objects.  What the
+    called function asks of its circuits (fanin, fanout, type, startpoints, add, connect, relabel ...) is circuit.py's code."""
+
+    def __init__(self, repo, overrides=None):
+        self.P = Package(repo, overrides=overrides, full_stack=True)
+
+    def call(self, rel, fname, *args, **kwargs):
+        try:
+            a2 = [to_full(self.P, a) if isinstance(a, RefCircuit) else a for a in args]
+            k2 = {k: (to_full(self.P, v) if isinstance(v, RefCircuit) else v) for k, v in kwargs.items()}
+        except ModelRaise as e:
+            return ("raise", e.kind, f"while rebuilding an argument through the public API: {e.what}")
+        r = self.P.call(rel, fname, *a2, **k2)
+        if r[0] == "return":
+            return ("return", to_ref(r[1]))
+        return r
